@@ -64,6 +64,10 @@ type ConnPlan struct {
 	Settings [][2]uint32 // our initial SETTINGS
 	NoALPN   bool
 	Silent   bool // never send SETTINGS (handshake of the client blocks)
+	// BigRecords turns TLS dynamic record sizing off: what we write reaches the
+	// client in 16 KiB records from the first octet on, so its read buffer can
+	// hold hundreds of small frames at once
+	BigRecords bool
 }
 
 // SConn is the server side of one connection the client dialled.
@@ -151,6 +155,7 @@ func (e *Env) dial(addr string) (net.Conn, error) {
 	if p.NoALPN {
 		cfg.NextProtos = []string{"http/1.1"}
 	}
+	cfg.DynamicRecordSizingDisabled = p.BigRecords
 	c.TLS = tls.Server(srv, cfg)
 	go c.serve(p)
 	return cli, nil
